@@ -58,6 +58,17 @@ class Space:
 
 
 def space_of(ex, st, v):
+    sp = _space_of(ex, st, v)
+    bound = getattr(ex.ctx, "cost_bound", None)
+    if bound is not None and sp.concrete is None and not getattr(sp, "_costed", False) and not isinstance(v, Space):
+        # C07: every iteration space met while computing one reading is bounded by the declared window,
+        # a term over the indicator's parameters in which len(candles) does not occur
+        sp._costed = True
+        ex.ctx.oblige(st, "cost", f"iteration space of {type(v).__name__} within the window bound", sp.n <= bound, None, props=["C07"])
+    return sp
+
+
+def _space_of(ex, st, v):
     from .exec import AList, GenVal, TupleV
 
     if isinstance(v, Space):
@@ -68,6 +79,13 @@ def space_of(ex, st, v):
         lo, hi, step = v.lo, v.hi, v.step
         if all(isinstance(x, int) for x in (lo, hi, step)):
             return Space(concrete=list(range(lo, hi, step)))
+        if step in (1, -1):
+            # a range whose length is a solver-visible constant is unrolled (exact)
+            lt, ht = to_int_term(lo), to_int_term(hi)
+            d = z3.simplify((ht - lt) if step == 1 else (lt - ht))
+            if z3.is_int_value(d) and d.as_long() <= 8:
+                cnt = max(0, d.as_long())
+                return Space(concrete=[concretize(SInt(z3.simplify(lt + step * k))) for k in range(cnt)])
         if step == 1:
             lt, ht = to_int_term(lo), to_int_term(hi)
             n = z3.simplify(z3.If(ht > lt, ht - lt, 0))
